@@ -130,6 +130,10 @@ def str_method(I, s, name):
                 return r
             if name == "strip" and not a:
                 t = sterm(I_, s)
+                from .regex import strip_by_language
+                known = strip_by_language(I_, t, _WS) if not a else None
+                if known is not None:
+                    return Sym(VStr(known))
                 r = py_strip(t)
                 # assumed contract of str.strip(): the result has no leading/trailing whitespace
                 # (stated as a regular-language membership: word equations make the string solver give up)
